@@ -185,6 +185,23 @@ BASES = [
         '1040.number_dependents': '1', '1040.dependent_0_odc': 'yes',
         '1040.number_1099-int': '1', '1099-int:0.box_1': '14000', '1099-int:0.box_6': '250', '1099-int:0.payer': 'Bank',
     }, per_year={2021: {'1040_s8812.principal_abode_us': 'yes'}}),
+    Base('B16-mfj-both-ira', ['1040'], {
+        '1040.filing_status': 'MarriedFilingJointly', '1040.number_w-2': '1', 'w-2:0.box_1': '50000', 'w-2:0.box_2': '4000', 'w-2:0.box_5': '50000',
+        '1040.number_1099-r': '2', '1099-r:*.box_7_ira_sep_simple': 'yes', '1099-r:0.belongs_to': 'taxpayer', '1099-r:1.belongs_to': 'spouse',
+        '1099-r:0.box_1': '8000', '1099-r:0.box_2a': '8000', '1099-r:1.box_1': '6000.50', '1099-r:1.box_2a': '6000.50', '1099-r:1.box_4': '600',
+    }),
+    # declared-unsupported by construction (C09): more payers than Schedule B has rows, the large one last
+    Base('B17-fifteen-payers', ['1040'], {
+        '1040.number_w-2': '1', 'w-2:0.box_1': '60000', 'w-2:0.box_2': '7000', 'w-2:0.box_5': '60000',
+        '1040.number_1099-int': '15', '1099-int:*.box_1': '50', '1099-int:14.box_1': '1000', '1099-int:*.payer': 'Bank',
+    }),
+    Base('B18-nc-use-tax-records', ['1040', 'nc_d-400'], dict(W2, **{
+        '1040.state': 'NC', 'nc_d-400.county': 'Wake', 'nc_d-400.nc_residents': 'yes', '1040.number_1098': '1', '1098:0.box_1': '3000',
+        'nc_d-400_consumer_use_tax_wkst.full_records': 'yes', 'nc_d-400_consumer_use_tax_wkst.other_state_sales_tax': '500',
+        'nc_d-400_consumer_use_tax_wkst.out_of_state_purchases': '1437', 'nc_d-400_consumer_use_tax_wkst.county_tax_pct': '0.07',
+        'nc_d-400_consumer_use_tax_wkst.out_of_state_purchases_pre_oct': '1004', 'nc_d-400_consumer_use_tax_wkst.county_tax_pct_pre_oct': '0.07',
+        'nc_d-400_consumer_use_tax_wkst.out_of_state_purchases_post_oct': '433', 'nc_d-400_consumer_use_tax_wkst.county_tax_pct_post_oct': '0.07',
+    })),
     Base('B7-dense', ['1040'], {
         '1040.number_w-2': '2', 'w-2:1.belongs_to': 'spouse', '1040.filing_status': 'MarriedFilingJointly',
         '1040.number_1099-int': '1', '1040.number_1099-div': '1', '1040.number_1099-g': '1', '1040.number_1098': '1',
@@ -199,6 +216,7 @@ BASES = [
 ]
 
 
+EXPECT_REFUSED = ('B17-fifteen-payers',)     # these base returns must never solve (C09)
 QUICK_BASES = ('B0-single-wage', 'B2-investor', 'B4-schedule1', 'B6-nc', 'B7-dense')
 
 
